@@ -77,4 +77,29 @@ PROPERTIES = {
         "jobs": [J("C03_integrate", v, quick={"cases": 700, "shards": 4, "max_size": 60}, thorough={"cases": 30000, "shards": 4, "max_size": 100})
                  for v in ("san", "san-dm1", "san-cm0", "san-cm2")],
     },
+    "C12": {
+        "rule": "rapidcheck: closed mesh (6 families + ellipsoids with a unique longest axis), placed by a random rigid motion (up to 1000 "
+                "sizes from the origin, um and unit scale), random renumbering of nodes/triangles, random per-triangle winding flips, "
+                "0-3 unused nodes appended; re-evaluated in a second frame (another rigid motion + renumbering + winding mix) and after a "
+                "uniform scaling lambda. Non-trivial = the input contained inward-wound triangles AND D/size >= 10; distinct = hash of the case.",
+        "min_nontrivial": 100,
+        "assumptions": ["volume tolerance 32 F eps (D+s)^3 (error model of the origin-anchored formula), area/centroid tolerances "
+                        "proportional to eps (D+s) times edge lengths; D/s <= ~2000 by construction",
+                        "longest-axis clause only on ellipsoids with axis ratio >= 1.3"],
+        "jobs": [J("C12_geometry", quick={"cases": 600, "shards": 16, "max_size": 60}, thorough={"cases": 20000, "shards": 16, "max_size": 100})],
+    },
+    "C11": {
+        "rule": "rapidcheck: closed mesh with generated momenta and face labels; edge-length band placed relative to the mesh's edge "
+                "length distribution in five classes (all edges inside, only too long, too short, both, heavy); 1-4 passes with swap on/off "
+                "and displacements (noise, stretch, strong compression producing slivers) between passes. The refiner's operation trace "
+                "(guarded hook H4) is replayed on a shadow mesh and the cell must equal the shadow. Non-trivial = a pass that performed "
+                ">= 1 split and >= 1 collapse, or a pass on an independently verified conforming mesh; distinct = hash of the case.",
+        "min_nontrivial": 100,
+        "assumptions": ["hook H4 reports (kind, edge nodes, their positions at operation time, new node id); the shadow verifies the logged "
+                        "positions against its own, so the trace cannot misreport geometry",
+                        "labels of faces created by an edge swap are not constrained (the statement only covers splits)",
+                        "termination = every generated pass returned or threw within the per-case watchdog (600 s); a pass may fail with mesh_integrity_exception"],
+        "jobs": [J("C11_refine", quick={"cases": 250, "shards": 16, "max_size": 60}, thorough={"cases": 10000, "shards": 16, "max_size": 100}),
+                 J("C11_refine", variant="san-dm1", quick={"cases": 100, "shards": 4, "max_size": 60}, thorough={"cases": 3000, "shards": 8, "max_size": 100})],
+    },
 }
